@@ -528,6 +528,8 @@ def value_getattr(eng, base, attr, line):
         return PyVal("valmethod", self_=base, name=attr) if attr != "hour" else dt_hour(base)
     if s == ATOM and attr in ("value", "name"):
         return _bm().opaque_string(eng, "enumvalue")
+    if s == ATOM and attr in ("format", "join", "lower", "upper", "strip"):
+        return PyVal("valmethod", self_=base, name=attr)
     if s == CHARS and attr in ("encode", "split", "join"):
         return PyVal("valmethod", self_=base, name=attr)
     raise EngineLimit("attribute %s on value of sort %s (line %s)" % (attr, s, line))
